@@ -87,7 +87,7 @@ func c17Alphabet() []c17Patch {
 
 func c17(r *hx.Run) {
 	fx.Quiet()
-	r.Rule = "breadth-first search from the empty document: a transition applies one patch of a 31-patch alphabet (add/replace-in-place/remove of 2 keys, 2 services, 2 aliases, replace, JSON patches, 4 failing patches) through the real DocumentComposer; states are canonical documents, explored to depth 3 (thorough 4); in every state every patch list of length <=2 (thorough 3) is applied and checked for purity (input equals a snapshot, also after the result is mutated), determinism, atomicity (failing member => (nil, err); otherwise equal to the fold of singletons) and equality with the ordered-map reference ref/doc; every reachable document with non-empty sections must survive PatchesFromDocument -> ApplyPatches({}). Non-trivial: distinct (state, list) pairs whose reference result differs from the input state or fails."
+	r.Rule = "breadth-first search from the empty document: a transition applies one patch of a 31-patch alphabet (add/replace-in-place/remove of 2 keys, 2 services, 2 aliases, replace, JSON patches, 4 failing patches) through the real DocumentComposer; states are canonical documents, explored to depth 3 (thorough 4); in every state every patch list of length <=2 (thorough 3) is applied and checked for purity (input equals a snapshot, also after the result is mutated), determinism, atomicity (failing member => (nil, err); otherwise equal to the fold of singletons) and equality with the ordered-map reference ref/doc; every reachable document with non-empty sections must survive PatchesFromDocument -> ApplyPatches({}); the same round trip for ~330 well-formed documents carrying every content class (format verbs such as %s, quotes, backslashes, control / non-ASCII / astral characters, numbers, null, nested containers) as member value, member name, nested value, service / key member, endpoint and alias. Non-trivial: distinct (state, list) pairs whose reference result differs from the input state or fails."
 	alpha := c17Alphabet()
 	composer := doccomposer.New()
 	maxDepth := 3
@@ -269,6 +269,8 @@ func c17(r *hx.Run) {
 			r.Sample(map[string]interface{}{"state_path": st.path, "document": hx.Trunc(snapshot, 200), "lists_applied": len(lists)})
 		}
 	})
+	// round trip over content classes: every string / value class at every position of a well-formed document
+	c17ContentRoundTrips(r, composer)
 	r.Extra["distinct_result_documents"] = len(outcomes)
 	r.Extra["patch_lists_per_state"] = len(lists)
 	r.Assumptions = append(r.Assumptions,
@@ -330,4 +332,65 @@ func c17RoundTrip(r *hx.Run, composer *doccomposer.DocumentComposer, d doc.Doc, 
 	}
 	r.Nontrivial(caseID)
 	r.Outcome("roundtrip")
+}
+
+// c17ContentRoundTrips converts documents whose member values and names carry every content class (format verbs, quotes,
+// escapes, control characters, non-ASCII, astral characters, numbers, nested containers) and applies the patches to {}.
+func c17ContentRoundTrips(r *hx.Run, composer *doccomposer.DocumentComposer) {
+	strs := []string{"%", "100%", "%s %d %v %%", "%!d(MISSING)", "\"", "\\", "\"q\" \\ b", "\u0000\u001f", "\b\f\n\r\t", "\u007f", "\u2028\u2029", "é", "\U0001F600", "\ue000\uffff",
+		"<>&'", "{}", "[\"x\"]", "null", " ", "", "https://example.com/a%20b?x=1&y=%7B%7D#f", "$&+,;=?@", "a.b", "a b", "0", "-", "#", "\u00a0"}
+	vals := []interface{}{1.0, -1.5, 1e21, 1e-7, 9007199254740993.0, true, false, nil, []interface{}{}, map[string]interface{}{}, []interface{}{nil, []interface{}{map[string]interface{}{"%": "%"}}},
+		map[string]interface{}{"a": map[string]interface{}{"b": []interface{}{1.0, "%d"}}}}
+	base := func() doc.Doc {
+		return doc.Doc{
+			"publicKey":   []interface{}{fx.KeyEntry("k1", fx.NewKey(fx.P256, "c17/rt"), []interface{}{"authentication"})},
+			"service":     []interface{}{fx.ServiceEntry("s1", "https://example.com/s1")},
+			"alsoKnownAs": []interface{}{"https://alias.example/1"},
+		}
+	}
+	type variant struct {
+		id string
+		d  doc.Doc
+	}
+	var vs []variant
+	add := func(id string, f func(d doc.Doc)) {
+		d := base()
+		f(d)
+		vs = append(vs, variant{id, d})
+	}
+	okName := func(s string) bool { return s != "" && !strings.ContainsAny(s, "~/") } // names that need no JSON-pointer escaping
+	for i, str := range strs {
+		str := str
+		add(fmt.Sprintf("s%d|member-value", i), func(d doc.Doc) { d["extra"] = str })
+		add(fmt.Sprintf("s%d|nested-value", i), func(d doc.Doc) {
+			d["extra"] = map[string]interface{}{"a": []interface{}{str, map[string]interface{}{"b": str}}}
+		})
+		add(fmt.Sprintf("s%d|two-members", i), func(d doc.Doc) { d["extra"], d["zz"] = str, []interface{}{str} })
+		if okName(str) {
+			add(fmt.Sprintf("s%d|member-name", i), func(d doc.Doc) { d[str] = "v" })
+			add(fmt.Sprintf("s%d|nested-name", i), func(d doc.Doc) { d["extra"] = map[string]interface{}{str: map[string]interface{}{str: 1.0}} })
+		}
+		add(fmt.Sprintf("s%d|service-endpoint", i), func(d doc.Doc) {
+			d["service"].([]interface{})[0].(map[string]interface{})["serviceEndpoint"] = str
+		})
+		add(fmt.Sprintf("s%d|service-member", i), func(d doc.Doc) { d["service"].([]interface{})[0].(map[string]interface{})["extra"] = str })
+		add(fmt.Sprintf("s%d|key-member", i), func(d doc.Doc) { d["publicKey"].([]interface{})[0].(map[string]interface{})["extra"] = str })
+		add(fmt.Sprintf("s%d|alias", i), func(d doc.Doc) { d["alsoKnownAs"] = []interface{}{str, "https://alias.example/2"} })
+		add(fmt.Sprintf("s%d|second-service", i), func(d doc.Doc) {
+			d["service"] = append(d["service"].([]interface{}), map[string]interface{}{"id": "s2", "type": str, "serviceEndpoint": []interface{}{str, map[string]interface{}{"u": str}}})
+		})
+	}
+	for i, v := range vals {
+		v := v
+		add(fmt.Sprintf("v%d|member-value", i), func(d doc.Doc) { d["extra"] = v })
+		add(fmt.Sprintf("v%d|three-members", i), func(d doc.Doc) { d["a"], d["b"], d["c"] = v, []interface{}{v}, map[string]interface{}{"v": v} })
+		add(fmt.Sprintf("v%d|service-member", i), func(d doc.Doc) { d["service"].([]interface{})[0].(map[string]interface{})["extra"] = v })
+		add(fmt.Sprintf("v%d|key-member", i), func(d doc.Doc) { d["publicKey"].([]interface{})[0].(map[string]interface{})["extra"] = v })
+	}
+	hx.ParallelFor(len(vs), func(i int) {
+		r.State()
+		r.Trans(1)
+		c17RoundTrip(r, composer, vs[i].d, "content|"+vs[i].id)
+	})
+	r.Extra["content_round_trips"] = len(vs)
 }
